@@ -268,10 +268,21 @@ def ot_frames():
             yield f"RP --- {OTB} 18:006402 --:------ 3220 005 00{word:08X}"
 
 
-def check_expiry(t: E.Tally, frame: str, lifetime_from_payload: float | None = None) -> None:
+def check_expiry(t: E.Tally, frame: str, lifetime_from_payload: float | None = None, prime: str | None = None) -> None:
     from ramses_tx import exceptions as exc
     from ramses_tx.message import Message
     from ramses_tx.packet import Packet
+
+    if prime is not None:  # from import-time module state, another kind of the same verb/code is decoded first
+        from mc import modstate
+
+        modstate.snapshot()
+        modstate.reset()
+        try:
+            if prime:  # ("" = from import-time state, nothing decoded first)
+                Packet(dt(2024, 1, 1), "045 " + prime)
+        except Exception:  # noqa: BLE001
+            return
 
     t0 = dt(2024, 1, 1)
 
@@ -287,6 +298,8 @@ def check_expiry(t: E.Tally, frame: str, lifetime_from_payload: float | None = N
         return
     t.n += 1
     rep = {"frame": frame}
+    if prime is not None:
+        rep["prime"] = prime
     life = m._pkt._lifespan
     f = frame.split()
     ref = ref_life(frame[:2], f[-3], f[-1], bool(m._pkt._has_array))
@@ -332,6 +345,11 @@ def shard_expiry(arg) -> E.Tally:
     i, n, quick = arg
     logcap.install()
     t = E.Tally()
+    from mc import modstate
+    import ramses_rf  # noqa: F401
+    import ramses_tx.message  # noqa: F401
+
+    modstate.snapshot()  # (before this worker decodes anything: the library's module-level state as it is after import)
     for j, fr in enumerate(kinds() + list(ot_frames())):
         if j % n == i:
             check_expiry(t, fr)
@@ -340,6 +358,48 @@ def shard_expiry(arg) -> E.Tally:
         if w % n == i:
             check_expiry(t, f" I --- {CTL} --:------ {CTL} 1F09 003 FF{w:04X}", lifetime_from_payload=w / 10)
     t.by["expiry"] = t.n
+    return t
+
+
+_PRIMED = r"""
+import json, sys
+sys.path.insert(0, {verif!r})
+import ramses_rf, ramses_tx.message
+from mc import modstate, logcap, enum as E
+modstate.snapshot()   # nothing has been decoded yet in this process: the library's module-level state as it is after import
+from checks import c14_freshness as C
+logcap.install()
+t = E.Tally()
+groups = {{}}
+for fr in C.kinds():
+    groups.setdefault((fr[:2], fr.split()[-3]), []).append(fr)
+for key, frs in sorted(groups.items()):
+    for a in frs:
+        for b in frs:
+            if a is not b:
+                C.check_expiry(t, b, prime=a)
+json.dump({{"n": t.n, "viol": {{k: [v["what"], v["replay"]] for k, v in t.viol.items()}}}}, sys.stdout)
+"""
+
+
+def shard_primed(_arg) -> E.Tally:
+    """The lifetime of a kind does not depend on which form of its code was heard first: in a process of its own (module state as after
+    import), for every two kinds of one verb/code (array and single-zone form, two OpenTherm ids ...) each is judged after the other."""
+    import json
+    import os
+    import subprocess
+    import sys
+
+    here = os.path.dirname(os.path.dirname(os.path.abspath(__file__)))
+    r = subprocess.run([sys.executable, "-c", _PRIMED.format(verif=here)], capture_output=True, text=True, timeout=600, env=dict(os.environ))
+    if r.returncode != 0:
+        raise RuntimeError(f"primed-expiry process failed: {r.stderr[-400:]}")
+    d = json.loads(r.stdout)
+    t = E.Tally()
+    t.n = d["n"]
+    for k, (what, rep) in d["viol"].items():
+        t.bad(k + ":after-another-form-of-the-code", what, rep)
+    t.by["primed_expiry_cases"] = d["n"]
     return t
 
 
@@ -573,6 +633,7 @@ def run(ctx) -> None:
         nsh = 16 if ctx.quick else 64
         jobs += [("shard_hist", (g, i, nsh, depth)) for i in range(nsh)]
     jobs += [("shard_expiry", (i, 16, ctx.quick)) for i in range(16)]
+    jobs += [("shard_primed", 0)]
     jobs += [("shard_attr_expiry", (i, 4)) for i in range(4)]
     jobs += [("shard_staggered", (i, 8)) for i in range(8)]
     jobs += [("shard_renewal", (i, 8)) for i in range(8)]
@@ -609,9 +670,14 @@ def replay(rep: dict):
     t = E.Tally()
     if "hist" in rep:
         run_history(t, tuple(rep["hist"]), letters(), rep["group"])
+    elif "frame" in rep and rep.get("prime"):
+        t.merge(shard_primed(0))
     elif "frame" in rep:
         fr = rep["frame"]
-        check_expiry(t, fr, lifetime_from_payload=int(fr.split()[-1][2:6], 16) / 10 if " 1F09 003 " in fr and fr.startswith(" I") else None)
+        import ramses_rf  # noqa: F401
+        import ramses_tx.message  # noqa: F401
+
+        check_expiry(t, fr, lifetime_from_payload=int(fr.split()[-1][2:6], 16) / 10 if " 1F09 003 " in fr and fr.startswith(" I") else None, prime=rep.get("prime"))
     elif "renewal" in rep:
         for i in range(8):
             t.merge(shard_renewal((i, 8)))
